@@ -1011,3 +1011,97 @@ pub fn family_wide() -> Vec<RefGrammar> {
     }
     out
 }
+
+/// F-lalr3: three- and four-way context families around a two-item kernel, reached over paths of
+/// different lengths. Tokens: p=0 q=1 r=2 s=3 x=4 y=5 z=6 a=7 b=8 d=9 e=10. Rules: S=0 A=1 B=2 C=3
+/// with `A: x y; B: x y; C: x z`. For each of the prefixes `p`, `q`, `r r`, `s s s` the start rule
+/// has either nothing, or `prefix A u | prefix B v` for one ordered pair u != v of {a,b,d,e};
+/// optionally one prefix also has `prefix C` (a state with another core in between). The state after
+/// `prefix x` has the kernel {A: x.y, B: x.y} with prefix-specific contexts: whether two of them
+/// may share their successor depends on all pairs, and the longer prefixes are discovered after
+/// the shorter ones' states were already processed (late merges, re-propagation, stranded states).
+/// `small` keeps three prefixes (p, q, s s s).
+pub fn family_lalr3(small: bool) -> Vec<RefGrammar> {
+    let prefixes: Vec<Vec<Sym>> = if small {
+        vec![vec![T(0)], vec![T(1)], vec![T(3), T(3), T(3)]]
+    } else {
+        vec![vec![T(0)], vec![T(1)], vec![T(2), T(2)], vec![T(3), T(3), T(3)]]
+    };
+    let suff = [7usize, 8, 9, 10];
+    let mut pairs: Vec<Option<(usize, usize)>> = vec![None];
+    for u in suff {
+        for v in suff {
+            if u != v {
+                pairs.push(Some((u, v)));
+            }
+        }
+    }
+    let np = prefixes.len();
+    let mut out = vec![];
+    let mut idx = vec![0usize; np];
+    loop {
+        let used: Vec<usize> = (0..np).filter(|i| pairs[idx[*i]].is_some()).collect();
+        if used.len() >= 2 {
+            for c in std::iter::once(None).chain(used.iter().map(|i| Some(*i))) {
+                let mut s: Vec<Vec<Sym>> = vec![];
+                for &i in &used {
+                    let (u, v) = pairs[idx[i]].unwrap();
+                    let mut pa = prefixes[i].clone();
+                    pa.extend([R(1), T(u)]);
+                    let mut pb = prefixes[i].clone();
+                    pb.extend([R(2), T(v)]);
+                    s.push(pa);
+                    s.push(pb);
+                    if c == Some(i) {
+                        let mut pc = prefixes[i].clone();
+                        pc.push(R(3));
+                        s.push(pc);
+                    }
+                }
+                out.push(g(11, vec![s, vec![vec![T(4), T(5)]], vec![vec![T(4), T(5)]], vec![vec![T(4), T(6)]]]));
+            }
+        }
+        // next index vector
+        let mut k = 0;
+        loop {
+            if k == np {
+                return out;
+            }
+            idx[k] += 1;
+            if idx[k] < pairs.len() {
+                break;
+            }
+            idx[k] = 0;
+            k += 1;
+        }
+    }
+}
+
+/// F-gc: small conflict-free grammars on which Pager's construction re-points an edge after a late
+/// merge and leaves a state behind that the final garbage collection has to remove (edges that
+/// cross the removed state's index in both directions), each with its complete edit-distance-1
+/// neighbourhood. (The shapes were found by searching grammars of 2-3 rules / 3-4 tokens for
+/// tables whose construction strands a state; the universes that contain them - U(2,3,3,3,9),
+/// U(3,3,3,3,8) - are too large to enumerate.)
+pub fn family_gc() -> Vec<RefGrammar> {
+    let bases = vec![
+        // S: 'b' A | 'a' | A 'a' S; A: 'b' S 'c';          tokens a0 b1 c2
+        g(3, vec![vec![vec![T(1), R(1)], vec![T(0)], vec![R(1), T(0), R(0)]], vec![vec![T(1), R(0), T(2)]]]),
+        // S: 'd' 'd' 'a' | B A | A 'a'; A: B 'b' 'c' 'b'; B: 'c' | B S A;     tokens a0 b1 c2 d3
+        g(
+            4,
+            vec![
+                vec![vec![T(3), T(3), T(0)], vec![R(2), R(1)], vec![R(1), T(0)]],
+                vec![vec![R(2), T(1), T(2), T(1)]],
+                vec![vec![T(2)], vec![R(2), R(0), R(1)]],
+            ],
+        ),
+        // S: 'c' B | | B A 'e'; A: ; B: 'c' S 'a';          tokens a0 c1 e2
+        g(3, vec![vec![vec![T(1), R(2)], vec![], vec![R(2), R(1), T(2)]], vec![vec![]], vec![vec![T(1), R(0), T(0)]]]),
+    ];
+    let mut out = bases.clone();
+    for b in &bases {
+        out.extend(neighbourhood(b));
+    }
+    out
+}
